@@ -153,8 +153,8 @@ theorem monitor_sound (v : Nat) (hv : v < 8) (items : List WItem)
     (hMustAck : ∀ x, mustAck.count x ≤ (ackIds (dequeued (WState.init v) items)).count x) :
     checkWrite (run (WState.init v) items).bytes issued kaIds mustAck = .accept := by
   have hparse := frames_parse_back v hv items hwf
-  obtain ⟨hreq, hack⟩ := run_inv PartInv (fun it => it.notAckTyp ∧ it.WF) partInv_step items
-    (fun it hit => ⟨hna it hit, hwf it hit⟩) (WState.init v) ⟨by simp, by simp⟩
+  obtain ⟨hreq, hack⟩ := run_inv PartInv WItem.notAckTyp partInv_step items
+    (fun it hit => hna it hit) (WState.init v) ⟨by simp, by simp⟩
   obtain ⟨_, hsr, hsa, _⟩ := run_sigs items (WState.init v)
   simp only [init_reqOut, init_ackOut, List.map_nil, List.nil_append] at hsr hsa
   have hpre := dequeued_prefix items (WState.init v)
